@@ -56,6 +56,9 @@ def classify(program, diffs, trig_hits, findings, prop):
                 continue
             if not any(s in anc for s in sids):
                 continue
+            # a finding of one backend does not explain a deviation observed on the other one
+            if f.get("backend") and d.get("backend") and d["backend"] != f["backend"]:
+                continue
             syms = f.get("symptoms", [])
             if any(sym == s or (s.endswith("*") and sym.startswith(s[:-1])) for s in syms):
                 matched = fid
